@@ -27,6 +27,17 @@ for _pid, _t in (("C03", "Sig_structure"), ("C04", "MAC_structure"), ("C05", "En
           "Theorems for all headers/AAD/payloads (no length bound below 2^64): the structure function returns exactly the RFC array in deterministic encoding, with the context strings regenerated from the source and pinned to the RFC's; callers use the stated context/slots and panic exactly where documented; the structure is injective in every component. The Rust functions and every create/verify/decrypt helper are run on generated tuples across bstr length classes and compared byte-for-byte with the model and with an independent Python encoder.",
           COMMON_NOTE, "DESIGN.md 7 (C03-C05)")
 
+
+claim("C13", "Coq proof (parser-extension lemma de_ext + fuel lemmas => suffix gives ExtraneousData, every proper prefix rejected, also inside protected bstr and for tagged forms) + correspondence over cut points/suffixes and API-layer agreement run on the implementation",
+      "Theorems for every byte string and every type (generic in the conversion function): appending any non-empty suffix to an accepted input yields ExtraneousData and every proper prefix is rejected, including the header map inside a protected byte string and the tagged entry points. API-layer agreement is definitional in the model and is checked on the implementation (from_slice vs from_cbor_value(read), to_vec vs to_cbor_value().to_vec()) for every type.",
+      COMMON_NOTE, "DESIGN.md 7 (C13)")
+claim("C14", "Coq proof (tag constants regenerated from source pinned to 98/18/96/16/97/17; tagged decode iff tag applied once to an accepted body, all tag-head widths; known boundary class depth=256 proved as refutation) + (type x tag x width x body) matrix on implementation and model",
+      "Theorems: tagged encoding = head(6,tag) ++ untagged encoding; tagged decoding accepts iff the item is that tag applied once to an item the untagged converter accepts (other tag / untagged / doubly tagged rejected; untagged decoders reject every tagged item); byte-level equivalence for every tag-head width under the explicit proviso that the body decodes within 255 nesting levels, with a proved witness that the proviso is necessary (known finding F5).",
+      COMMON_NOTE, "DESIGN.md 7 (C14), 8 (F5)")
+claim("C15", "Coq proof (each narrowing site = explicit range test; every head width and bignum spelling decodes to the same integer; encode/decode exact) + boundary-lattice correspondence at every interpreting position",
+      "Theorems over all integers: label / registry label / timestamp / nonce decode exactly iff in the i64 range and give OutOfRangeIntegerValue otherwise, key-data-length likewise for u64; byte level: all head widths and both bignum spellings of an integer decode to the same value, and every CBOR integer round-trips. The implementation is run on the +-1 lattice around 0, 23/24, 2^8, 2^16, 2^32, 2^63, 2^64 in every width at every interpreting position with exact expected outcomes computed independently.",
+      COMMON_NOTE, "DESIGN.md 7 (C15)")
+
 def main():
     props = sorted(TITLES)
     checks = []
